@@ -57,11 +57,8 @@ def judgeFetch : Judge := liftJudge fun input obs => do
 
 /-! ## end-to-end judge (pkg/object/httpserver loopback harness) -/
 
-def judgeE2E : Judge := liftJudge fun input obs => do
-  let sc := parseScenario input
-  match obsPanic obs with
-  | some m => pure { agree := false, spec := false, sig := "panic:e2e", note := m }
-  | none =>
+/-- one request / response pair of a scenario (also used per request step of an update history) -/
+def judgeScenario (sc : Scenario) (obs : Json) : Except String Verdict := do
   if optStr obs "error" != "" then
     return { agree := false, spec := true, note := "harness: " ++ optStr obs "error", nontrivial := false, tags := ["harness-error"] }
   let o := parseOracle obs
@@ -144,7 +141,69 @@ def judgeE2E : Judge := liftJudge fun input obs => do
                  ++ (if aborted then ["model:client-aborted"] else []),
          nontrivial := rel reqLim reqSrc != "under" || (contacted && rel respLim respSrc != "under") }
 
-def judges : List (String × Judge) := [("fetch", judgeFetch), ("e2e", judgeE2E)]
+def judgeE2E : Judge := liftJudge fun input obs => do
+  match obsPanic obs with
+  | some m => pure { agree := false, spec := false, sig := "panic:e2e", note := m }
+  | none => judgeScenario (parseScenario input) obs
+
+/-! ## update histories: `mux.reload` between requests (model: `Payload.muxHistory` — every request is served with the
+limits of the spec in force when it arrives, `effective_limit_over_reload_histories`) -/
+
+def judgeReload : Judge := liftJudge fun input obs => do
+  match obsPanic obs with
+  | some m => pure { agree := false, spec := false, sig := "panic:reload", note := m }
+  | none =>
+  if optStr obs "error" != "" then
+    return { agree := false, spec := true, note := "harness: " ++ optStr obs "error", nontrivial := false, tags := ["harness-error"] }
+  let cfg0 := (input.getObjVal? "cfg").toOption.getD Json.null
+  let steps ← getArr input "steps"
+  let obsSteps ← getArr obs "steps"
+  if steps.size != obsSteps.size then throw "steps/observations length mismatch"
+  let mut pathMax := optInt cfg0 "pathMax"
+  let mut serverMax := optInt cfg0 "serverMax"
+  let mut rulesN : Int := 0
+  let mut lastKind := "initial"
+  let mut agree := true
+  let mut sig := ""
+  let mut note := ""
+  let mut tags : List String := []
+  let mut nontrivial := false
+  let mut expected : Array Json := #[]
+  let mut idx : Nat := 0
+  let mut sinceReload : Nat := 0
+  for (stJ, obJ) in steps.toList.zip obsSteps.toList do
+    match stJ.getObjVal? "reload" with
+    | .ok (.obj o) =>
+      let r := Json.obj o
+      let p := optInt r "pathMax"
+      let sv := optInt r "serverMax"
+      let rules := optInt r "rules"
+      lastKind := if rules != rulesN then "rules-changed" else if p != pathMax then "path-level" else if sv != serverMax then "server-level-only" else "nothing-changed"
+      pathMax := p
+      serverMax := sv
+      rulesN := rules
+      sinceReload := 0
+      tags := tags ++ ["reload:" ++ lastKind]
+      if optStr obJ "error" != "" then throw ("harness: " ++ optStr obJ "error")
+    | _ =>
+      let cfg := (cfg0.setObjVal! "pathMax" (Json.num pathMax)).setObjVal! "serverMax" (Json.num serverMax)
+      let sc := parseScenario (stJ.setObjVal! "cfg" cfg)
+      let v ← judgeScenario sc obJ
+      sinceReload := sinceReload + 1
+      expected := expected.push (Json.mkObj [("step", idx), ("pathMax", Json.num pathMax), ("serverMax", Json.num serverMax), ("model", v.expected)])
+      if !v.agree then
+        agree := false
+        if note == "" then note := s!"step {idx} (limits path={pathMax} server={serverMax}, after {lastKind})"
+      if !v.spec && sig == "" then
+        sig := "reload:" ++ lastKind ++ ":" ++ v.sig
+        note := s!"step {idx}: limits in force path={pathMax} server={serverMax} (last update: {lastKind})"
+      if v.nontrivial && lastKind != "initial" then nontrivial := true
+      tags := tags ++ (v.tags.filter fun t => t.startsWith "req-" && !t.startsWith "req-enc" && !t.startsWith "req-limit") 
+    idx := idx + 1
+  pure { agree := agree, spec := sig == "", sig := sig, note := note, expected := Json.arr expected,
+         tags := tags.eraseDups ++ [s!"steps:{steps.size}"], nontrivial := nontrivial }
+
+def judges : List (String × Judge) := [("fetch", judgeFetch), ("e2e", judgeE2E), ("reload", judgeReload)]
 
 end Driver.C07
 
